@@ -474,12 +474,13 @@ func (c *Cluster) step(nd *nodeRT, ev Event, rec *Record) {
 	}
 	// the rule of node/raft.go shouldPersistBeforeApply (etcd's shouldWaitWALSync), mirrored
 	overlap := false
-	if raft.IsEmptySnap(rd.Snapshot) && len(rd.CommittedEntries) > 0 && len(rd.Entries) > 0 {
+	if len(rd.CommittedEntries) > 0 && len(rd.Entries) > 0 {
 		lc := rd.CommittedEntries[len(rd.CommittedEntries)-1]
 		fu := rd.Entries[0]
 		overlap = lc.Term > fu.Term || (lc.Term == fu.Term && lc.Index >= fu.Index)
 	}
-	nd.stages = CurrentOrder.Stages(nd.newLeader, overlap)
+	nd.stages = CurrentOrder.Stages(Env{Leader: nd.newLeader, Overlap: overlap,
+		EmptyHS: raft.IsEmptyHardState(rd.HardState), EmptySnap: raft.IsEmptySnap(rd.Snapshot)})
 	// node/raft.go processMessages: only the last MsgAppResp is sent; MsgSnap goes through the
 	// snapshot sender (kept: it is transported with the storage's snapshot meta)
 	msgs := make([]pb.Message, 0, len(rd.Messages))
